@@ -28,7 +28,36 @@ impl SelectionFieldArgument {
     pub fn into_key_and_value(&self) -> ArgumentKeyAndValue {
         ArgumentKeyAndValue {
             key: self.name.item,
-            value: self.value.item.clone(),
+            value: self.value.item.without_locations(),
+        }
+    }
+}
+
+impl NonConstantValue {
+    /// Arguments identify (and are merged by) their value; where a nested object
+    /// entry or list item was written must not distinguish two equal values.
+    pub fn without_locations(&self) -> NonConstantValue {
+        let nowhere = EmbeddedLocation::todo_generated();
+        match self {
+            NonConstantValueInner::Object(entries) => NonConstantValueInner::Object(
+                entries
+                    .iter()
+                    .map(|entry| NameValuePair {
+                        name: WithGenericLocation::new(entry.name.item, nowhere),
+                        value: WithGenericLocation::new(
+                            entry.value.item.without_locations(),
+                            nowhere,
+                        ),
+                    })
+                    .collect(),
+            ),
+            NonConstantValueInner::List(items) => NonConstantValueInner::List(
+                items
+                    .iter()
+                    .map(|item| WithGenericLocation::new(item.item.without_locations(), nowhere))
+                    .collect(),
+            ),
+            other => other.clone(),
         }
     }
 }
